@@ -216,6 +216,25 @@ def main(tier, seed):
 
     jobs = [(i, b) for i in range(nprog) for b in ("dart", "kotlin")]
     results = pmap(one, jobs)
+    # directed probe (known finding F48): a trait method disabled for the backend still has its slot in the vtable Rust compiled
+    pd = toolrun.fresh_dir(toolrun.workdir("c07", "probe_disabled_trait_method"))
+    open(os.path.join(pd, "lib.rs"), "w").write(
+        "#[diplomat::bridge]\nmod ffi {\n    pub trait VfTr {\n        fn m0(&self, a: u8) -> u32;\n        #[diplomat::attr(kotlin, disable)]\n        fn m1(&self);\n"
+        "        fn m2(&self, b: i16) -> i16;\n    }\n    #[diplomat::opaque]\n    pub struct VfOp(u8);\n    impl VfOp {\n        pub fn use_tr(t: impl VfTr, n: i32) -> i32 { t.m1(); n }\n    }\n}\n")
+    open(os.path.join(pd, "config.toml"), "w").write(tooltier.STD_CONFIG["kotlin"])
+    rc, o, e = toolrun.run_tool("kotlin", os.path.join(pd, "lib.rs"), os.path.join(pd, "out"), config_file=os.path.join(pd, "config.toml"))
+    if rc == 0:
+        rd = am.KotlinReader(os.path.join(pd, "out"))
+        vt = rd.classes.get("DiplomatTrait_VfTr_VTable_Native")
+        names = [n for n, _ in vt[1]] if vt else None
+        want = ["destructor", "size", "alignment", "run_m0_callback", "run_m1_callback", "run_m2_callback"]
+        stats["structs_compared"] += 1
+        if names != want:
+            chk.violation("probe_disabled_trait_method", "kotlin: vtable of a trait with a method disabled for Kotlin declares %s, the vtable Rust compiled is %s" % (names, want),
+                          {"lib_rs": open(os.path.join(pd, "lib.rs")).read(), "declared": names, "abi": want},
+                          key={"backend": "kotlin", "signature": "trait method disabled for the backend is dropped from the vtable Structure"})
+    else:
+        chk.inconc("disabled-trait-method probe: tool failed: " + e[-200:])
     nskip = 0
     disagreements = 0
     for r in results:
